@@ -349,6 +349,35 @@ theorem null_inert (s : StaticPool) (m : Mem) :
 theorem release_inert (s : StaticPool) (p : Option Nat) (hp : p ≠ some s.core.high) : s.release p = s :=
   StaticPool.release_inert s p hp
 
+/-! ## Pools larger than 4 GiB (the `giant=1` correspondence stream)
+
+The driver runs such pools with an empty byte list and never writes: the operations of those
+histories commute with replacing the region content, and the byte-free invariant it checks gives the
+full invariant for every region content of the right length. -/
+
+/-- malloc / free / reset do not read or write the region content -/
+theorem region_content_irrelevant (s : StaticPool) (b : Buf Nat) :
+    (∀ n, (s.withBytes b).malloc n = ((s.malloc n).1, (s.malloc n).2.withBytes b)) ∧
+    (∀ p, (s.withBytes b).release p = (s.release p).withBytes b) ∧
+    (s.withBytes b).reset = s.reset.withBytes b :=
+  ⟨StaticPool.malloc_withBytes s b, StaticPool.release_withBytes s b, StaticPool.reset_withBytes s b⟩
+
+/-- the byte-free invariant is the invariant of the pool over any region of the right length -/
+theorem giant_invariant (s : StaticPool) (b : Buf Nat) (hb : b.length = s.core.size) :
+    s.InvNoBytes ↔ (s.withBytes b).Inv :=
+  ⟨fun h => StaticPool.inv_withBytes s b h hb, fun h => (StaticPool.invNoBytes_withBytes s b).1 (StaticPool.invNoBytes_of_inv _ h)⟩
+
+/-- a request that takes the used count to 2^32 and beyond is served exactly like a small one: the
+pool of 6 GiB hands out 2^32 bytes at offset 0, then 1 GiB at offset 2^32, refuses 1 GiB + 1 and
+reports 5 GiB used -/
+example :
+    let s := StaticPool.new (6 * 2 ^ 30) []
+    let s1 := (s.malloc (2 ^ 32)).2
+    let s2 := (s1.malloc (2 ^ 30)).2
+    (s.malloc (2 ^ 32)).1 = some 0 ∧ (s1.malloc (2 ^ 30)).1 = some (2 ^ 32) ∧
+    (s2.malloc (2 ^ 30 + 1)).1 = none ∧ s2.core.usedBytes = 5 * 2 ^ 30 ∧ s2.core.freeBytes = 2 ^ 30 ∧ s2.InvNoBytes := by
+  decide
+
 /-! ## Non-vacuity: a pool with two live blocks, the newest still in the roll-back slot -/
 example :
     let s : StaticPool := { core := { size := 8, free := 5, high := 2, bytes := [1, 1, 2, 2, 2, 238, 238, 238] },
